@@ -145,8 +145,9 @@ class LenInterp:
             if isinstance(st, ast.While):
                 et, ef = self.refine(fi, st.test, env2)
                 self.block(fi, st.body, et if et is not None else env2)
-            else:
-                self.block(fi, st.body, env2)
+                # after the loop the (negated) test holds for the widened state
+                return dict(ef) if ef is not None else dict(env2)
+            self.block(fi, st.body, env2)
             out = dict(env2)
             return out
         if isinstance(st, (ast.Return, ast.Raise)):
@@ -516,6 +517,20 @@ def r_wrap(ctx) -> RuleResult:
         res.fail(Finding("R-WRAP", wh.module.rel, wh.qualname, "path: " + " ; ".join(cfgw.describe(x) for x in bad_path[:-1]),
                          "a wrapped line can end with a continued chunk (trailing continuation character) and no final chunk: the reader splices the next record onto it",
                          line=wh.node.lineno))
+    # same partition written as two statements: append(.. x[:a] ..) and x = x[b:]
+    if not chunk:
+        heads = [(sl, try_const(ctx, wh, sl.slice.upper)) for a in apps for sl in ast.walk(a) if isinstance(sl, ast.Subscript) and isinstance(sl.slice, ast.Slice)
+                 and sl.slice.lower is None and sl.slice.upper is not None and isinstance(sl.value, ast.Name)]
+        rests = [(n, try_const(ctx, wh, n.value.slice.lower)) for n in own_walk(wh.node) if isinstance(n, ast.Assign) and isinstance(n.targets[0], ast.Name)
+                 and isinstance(n.value, ast.Subscript) and isinstance(n.value.slice, ast.Slice) and n.value.slice.upper is None and n.value.slice.lower is not None
+                 and isinstance(n.value.value, ast.Name) and n.value.value.id == n.targets[0].id]
+        for sl, a_ in heads:
+            for n, b_ in rests:
+                if sl.value.id == n.targets[0].id:
+                    ok = isinstance(a_, int) and a_ == b_ and a_ > 0
+                    res.inst(wh.fq, f"{short(sl)} emitted, {short(n)} kept", "ok" if ok else "fail", detail="chunk emitted + rest kept = whole text")
+                    if not ok:
+                        res.fail(Finding("R-WRAP", wh.module.rel, wh.qualname, norm(n), "wrapping drops or duplicates characters (emitted chunk and kept rest do not partition the text)", line=n.lineno))
     # last character of every logical line
     text_param = params_of(wh.node)[1] if len(params_of(wh.node)) > 1 else None
     n_lines = 0
